@@ -164,6 +164,13 @@ pub fn dn_type(custom_moderate: bool) -> BoxedStrategy<DnTypeSpec> {
 		3 => Just(DnTypeSpec::CommonName),
 		1 => Just(DnTypeSpec::Custom(vec![1, 2, 840, 113549, 1, 9, 1])),
 		1 => Just(DnTypeSpec::Custom(vec![0, 9, 2342, 19200300, 100, 1, 25])),
+		// the rest of the X.520 / RFC 4519 set and friends, which a library may one day give names to
+		2 => select(vec![
+			vec![2u64, 5, 4, 4], vec![2, 5, 4, 5], vec![2, 5, 4, 9], vec![2, 5, 4, 12], vec![2, 5, 4, 13], vec![2, 5, 4, 15], vec![2, 5, 4, 17], vec![2, 5, 4, 20],
+			vec![2, 5, 4, 41], vec![2, 5, 4, 42], vec![2, 5, 4, 43], vec![2, 5, 4, 44], vec![2, 5, 4, 45], vec![2, 5, 4, 46], vec![2, 5, 4, 65], vec![2, 5, 4, 97],
+			vec![0, 9, 2342, 19200300, 100, 1, 1], vec![1, 2, 840, 113549, 1, 9, 2], vec![1, 2, 840, 113549, 1, 9, 8],
+			vec![1, 3, 6, 1, 4, 1, 311, 60, 2, 1, 1], vec![1, 3, 6, 1, 4, 1, 311, 60, 2, 1, 2], vec![1, 3, 6, 1, 4, 1, 311, 60, 2, 1, 3], vec![2, 5, 4, 0], vec![2, 5, 4, 1],
+		]).prop_map(DnTypeSpec::Custom),
 		2 => custom.prop_map(DnTypeSpec::Custom),
 	]
 	.boxed()
@@ -755,6 +762,19 @@ pub fn crl_spec(plain_times: bool) -> BoxedStrategy<CrlSpec> {
 	];
 	(t, 1i64..100_000_000, nanos(), offset(), int_bytes(21), idp(), entries, kid())
 		.prop_map(|(this_update, delta, n2, off2, crl_number, idp, mut revoked, kid)| {
+			// a certificateHold entry followed by the removeFromCRL entry of the same serial (a delta-CRL
+			// idiom); now and then the list is nothing but such pairs
+			if n2 % 8 == 3 && !revoked.is_empty() && revoked.len() < 8 {
+				let only_pairs = n2 % 16 == 3;
+				let base: Vec<RevokedSpec> = if only_pairs { revoked.drain(..).take(2).collect() } else { revoked.iter().take(1).cloned().collect() };
+				for mut e in base {
+					let mut rel = e.clone();
+					e.reason = Some(ReasonSpec::CertificateHold);
+					rel.reason = Some(ReasonSpec::RemoveFromCrl);
+					revoked.push(e);
+					revoked.push(rel);
+				}
+			}
 			let next_unix = (this_update.unix + delta).min(Y9999_END);
 			let mut this_update = this_update;
 			if next_unix <= this_update.unix {
